@@ -17,7 +17,7 @@ from ..absint import Config, Interp, RaiseSig
 from ..harness import rule
 from ..index import AnalysisError
 from ..rulekit import dim_of, isym, new_dict, new_list, new_obj, path_text
-from ..values import C, FALSE, NONE, TRUE, App, Ext, HObj, Ref, Sym, Tup, template_text
+from ..values import C, FALSE, NONE, TRUE, App, Cls, Ext, HObj, Ref, Sym, Tup, template_text
 from .c18 import connect_paths
 
 PROXY_EXC = "_exceptions:WebSocketProxyException"
@@ -347,3 +347,46 @@ def r4(ctx):
         raise AnalysisError("no returning path of connect() through the proxy branch")
     ctx.ob("_http:connect:tunnel-iff-proxy-to-origin", bad is None, f"{n} paths" if bad is None else
            f"effects {[repr(e)[:60] for e in bad.effects]}", ctx.index.loc(ctx.index.func('_http:connect').node), {"path": path_text(bad)} if bad else None)
+
+
+@rule("R-C19-5", min_instances=2, title="the no_proxy option reaches the exemption test whether the proxy comes from an option or from the environment (options -> proxy_info -> get_proxy_info)")
+def r5(ctx):
+    idx = ctx.index
+    loc = idx.loc(idx.func("_http:proxy_info.__init__").node)
+
+    def exempt(I, run, args, kwargs, node):
+        run.effect("exempt?", args, kwargs, node=node)
+        return TRUE
+
+    I = Interp(idx, Config(stubs={"_url:_is_no_proxy_host": exempt}))
+    for label, extra in (("proxy-by-option", {"http_proxy_host": C("opt.proxy"), "http_proxy_port": C(3128)}), ("proxy-by-environment", {})):
+        def body(run, extra=extra):
+            opts = dict(extra)
+            opts["http_no_proxy"] = Sym("opt.no_proxy", "obj")
+            px = I.call(run, Cls("_http:proxy_info"), [], opts, None)
+            return I.call(run, I.make_fn(run, "_http:_get_addrinfo_list"), [Sym("u.host", "str"), Sym("u.port", "int"), Sym("u.secure", "bool"), px], {}, None)
+
+        outs = ctx.count_paths(I.explore(body))
+        ex = [e for o in outs for e in o.effects if e.name == "exempt?"]
+        if not ex:
+            raise AnalysisError(f"{label}: the exemption test is never reached")
+        got = ex[0].args[1] if len(ex[0].args) > 1 else ex[0].kwargs.get("no_proxy")
+        ok = all((e.args[1] if len(e.args) > 1 else e.kwargs.get("no_proxy")) == Sym("opt.no_proxy", "obj") for e in ex)
+        ctx.ob(f"_http:proxy_info:{label}:no_proxy-option-consulted", ok, f"_is_no_proxy_host(host, {got!r})" if ok else
+               f"{label}: the caller's http_no_proxy option never reaches the exemption test (it sees {got!r}); a target the option exempts is sent through the proxy",
+               ex[0].loc or loc)
+    # WebSocketApp.run_forever forwards every option explicitly, proxy_type=None when the caller did not choose one:
+    # an HTTP proxy given by option must still be used
+    for label, pt in (("absent", None), ("None (as WebSocketApp passes it)", NONE), ("http", C("http"))):
+        def body2(run, pt=pt):
+            opts = {"http_proxy_host": C("opt.proxy"), "http_proxy_port": C(3128)}
+            if pt is not None:
+                opts["proxy_type"] = pt
+            return I.call(run, Cls("_http:proxy_info"), [], opts, None)
+        for o in ctx.count_paths(I.explore(body2)):
+            proto = o.run.cell(o.value).fields.get("proxy_protocol") if o.kind == "return" and isinstance(o.value, Ref) else None
+            ok = o.kind == "return" and proto == C("http")
+            ctx.ob(f"_http:proxy_info:proxy_type={label}", ok, f"proxy_protocol = {proto!r}" if ok else
+                   f"proxy_info(http_proxy_host=..., http_proxy_port=..., proxy_type {label}) ends as {o.kind} {o.exc_class or ''} with protocol {proto!r}: "
+                   f"the proxy given by option is not used (HTTP is the documented default)", o.raise_loc or loc, {"path": path_text(o)})
+
